@@ -23,6 +23,7 @@ int simalloc_cur_step = -1;
 int simalloc_failed, simalloc_failed_in_step;
 uint64_t simalloc_nlib, simalloc_nrefused_shrink, simalloc_nmoved;
 void (* simalloc_free_hook)(void *, size_t);
+int simalloc_oneshot = -1;
 
 static int persist_on;
 static int step_allocs;		/* library allocations seen in the current step */
@@ -125,6 +126,8 @@ should_fail(void)
 	    R->nalloc[simalloc_cur_step] < 65535)
 		R->nalloc[simalloc_cur_step]++;
 	if (persist_on)
+		goto fail;
+	if (simalloc_oneshot >= 0 && simalloc_oneshot-- == 0)
 		goto fail;
 	if (sim_af_step >= 0 && simalloc_cur_step == sim_af_step && k == sim_af_k) {
 		if (sim_af_persist)
